@@ -44,7 +44,7 @@ def sites(T, path=()):
     out = []
     Bt = U.base_of(T)
     k = Bt[0]
-    if k in ('int', 'octs', 'bits', 'char', 'seqof', 'setof', 'seq', 'set'):
+    if k in ('int', 'octs', 'bits', 'char', 'seqof', 'setof', 'seq', 'set', 'oid', 'enum'):
         out.append((path, k, Bt))
     if k in ('seq', 'set'):
         for name, ft, pres, dv in Bt[1]:
@@ -59,32 +59,69 @@ def sites(T, path=()):
     return out
 
 
+OIDS = [(1, 3, 6, 1), (2, 5, 4, 3), (0, 9, 2342), (1, 2, 840, 113549), (2, 999, 1)]
+
+
+def _size_c(rng, los, spans):
+    lo = rng.choice(los)
+    return ('size', lo, lo + rng.choice(spans))
+
+
+def _compose(rng, leaf):
+    """Now and then the constraint is a small expression, or a derivation chain whose second link repeats an operand
+    of the first link's union (T.subtype(A | B).subtype(A): the denotation is A)."""
+    r = rng.random()
+    a = leaf()
+    if r < 0.7:
+        return a
+    b = leaf()
+    if r < 0.8:
+        return ('or', (a, b))
+    if r < 0.9:
+        return ('chain', (('or', (a, b)), rng.choice([a, b])))
+    return ('chain', (a, ('or', (a, b))))
+
+
 def gen_constraint(rng, kind, Bt):
     if kind == 'int':
         r = rng.random()
-        if r < 0.6:
-            lo = rng.choice([-129, -1, 0, 1, 100, 2 ** 31])
-            return ('range', lo, lo + rng.choice([0, 1, 10, 255, 2 ** 16]))
+        if r < 0.5:
+            def leaf():
+                lo = rng.choice([-129, -1, 0, 1, 100, 2 ** 31])
+                return ('range', lo, lo + rng.choice([0, 1, 10, 255, 2 ** 16]))
+            return _compose(rng, leaf)
         if r < 0.8:
             return ('single', tuple(sorted(rng.sample([-2, -1, 0, 1, 2, 5, 127, 128, 255, 256], 3))))
         return ('or', (('range', 0, 5), ('range', 100, 200)))
     if kind in ('octs', 'bits'):
-        lo = rng.choice([0, 1, 2, 8])
-        return ('size', lo, lo + rng.choice([0, 1, 3, 16]))
+        return _compose(rng, lambda: _size_c(rng, [0, 1, 2, 8], [0, 1, 3, 16]))
     if kind == 'char':
         if rng.random() < 0.5:
-            lo = rng.choice([0, 1, 2])
-            return ('size', lo, lo + rng.choice([0, 2, 8]))
+            return _compose(rng, lambda: _size_c(rng, [0, 1, 2], [0, 2, 8]))
         return ('alpha', tuple('abc012 '))
     if kind in ('seqof', 'setof'):
-        lo = rng.choice([0, 1, 2])
-        return ('size', lo, lo + rng.choice([0, 1, 2]))
+        return _compose(rng, lambda: _size_c(rng, [0, 1, 2], [0, 1, 2]))
+    if kind == 'oid':
+        return ('single', tuple(rng.sample(OIDS, rng.randint(1, 3))))
+    if kind == 'enum':
+        nums = [n for _, n in Bt[1]]
+        return ('single', tuple(sorted(rng.sample(nums, rng.randint(1, len(nums))))))
     if kind in ('seq', 'set'):
         opt = [f[0] for f in Bt[1] if f[2] == 'opt']
         if not opt:
             return None
         return ('withc', tuple((f, rng.choice(['present', 'absent'])) for f in rng.sample(opt, rng.randint(1, len(opt)))))
     return None
+
+
+def sizes(Cx, admit=True):
+    """The sizes 0..max+2 a size expression admits (or refuses)."""
+    top = max(RC.boundaries(Cx) or [0]) + 2
+    return [n for n in range(0, top + 1) if RC.admits(Cx, [None] * n) == admit]
+
+
+def is_size_expr(Cx):
+    return Cx[0] == 'size' or (Cx[0] in ('or', 'and', 'chain') and all(is_size_expr(c) for c in Cx[1]))
 
 
 def cval(kind, v):
@@ -156,7 +193,11 @@ def cschema(T, cons, path=()):
     else:
         s = B.schema(T)
     if path in cons:
-        s = s.subtype(subtypeSpec=RC.to_pyasn1(cons[path]))
+        if cons[path][0] == 'chain':
+            for link in cons[path][1]:
+                s = s.subtype(subtypeSpec=RC.to_pyasn1(link))
+        else:
+            s = s.subtype(subtypeSpec=RC.to_pyasn1(cons[path]))
     return s
 
 
@@ -196,29 +237,31 @@ def break_value(rng, T, v, cons):
                 if new is not None:
                     break
         elif k == 'octs':
-            for n in (Cx[2] + 1, Cx[1] - 1) if Cx[0] == 'size' else ():
-                if n >= 0:
-                    new = b'x' * n
-                    break
+            bad = sizes(Cx, False) if is_size_expr(Cx) else []
+            if bad:
+                new = b'x' * rng.choice(bad)
         elif k == 'bits':
-            for n in (Cx[2] + 1, Cx[1] - 1) if Cx[0] == 'size' else ():
-                if n >= 0:
-                    new = (n, 0)
-                    break
+            bad = sizes(Cx, False) if is_size_expr(Cx) else []
+            if bad:
+                new = (rng.choice(bad), 0)
         elif k == 'char':
-            if Cx[0] == 'size':
-                for n in (Cx[2] + 1, Cx[1] - 1):
-                    if n >= 0:
-                        new = 'a' * n
-                        break
+            if is_size_expr(Cx):
+                bad = sizes(Cx, False)
+                if bad:
+                    new = 'a' * rng.choice(bad)
             else:
                 new = (cur or '') + 'Z'
         elif k in ('seqof', 'setof'):
-            for n in (Cx[2] + 1, Cx[1] - 1) if Cx[0] == 'size' else ():
-                if n >= 0:
-                    o = U.GenOpts(depth=1)
-                    new = [U.gen_value(rng, Bt[1], o, small=True) for _ in range(n)]
-                    break
+            bad = sizes(Cx, False) if is_size_expr(Cx) else []
+            if bad:
+                o = U.GenOpts(depth=1)
+                new = [U.gen_value(rng, Bt[1], o, small=True) for _ in range(rng.choice(bad))]
+        elif k == 'oid':
+            new = rng.choice([x for x in OIDS + [(1, 3, 6, 2)] if x not in Cx[1]])
+        elif k == 'enum':
+            others = [n for _, n in Bt[1] if n not in Cx[1]]
+            if others:
+                new = rng.choice(others)
         elif k in ('seq', 'set') and Cx[0] == 'withc':
             f, want = rng.choice(Cx[1])
             new = dict(cur)
@@ -438,8 +481,8 @@ def steer(rng, T, v, cons, path):
         return out
     if k in ('seqof', 'setof'):
         items = [steer(rng, Bt[1], x, cons, path + ('*',)) for x in v]
-        if Cx is not None and Cx[0] == 'size':
-            n = rng.randint(Cx[1], Cx[2])
+        if Cx is not None and is_size_expr(Cx) and sizes(Cx):
+            n = rng.choice(sizes(Cx))
             while len(items) < n:
                 items.append(steer(rng, Bt[1], U.gen_value(rng, Bt[1], U.GenOpts(depth=1, allow_any=False), small=True),
                                    cons, path + ('*',)))
@@ -455,15 +498,19 @@ def steer(rng, T, v, cons, path):
                 if RC.admits(Cx, cand + d):
                     return cand + d
         return v
-    if k == 'octs' and Cx[0] == 'size':
-        return U.gen_bytes(rng, rng.randint(Cx[1], Cx[2]))
-    if k == 'bits' and Cx[0] == 'size':
-        n = rng.randint(Cx[1], Cx[2])
+    if k == 'octs' and is_size_expr(Cx) and sizes(Cx):
+        return U.gen_bytes(rng, rng.choice(sizes(Cx)))
+    if k == 'bits' and is_size_expr(Cx) and sizes(Cx):
+        n = rng.choice(sizes(Cx))
         return (n, rng.getrandbits(n) if n else 0)
     if k == 'char':
-        if Cx[0] == 'size':
-            return ''.join(rng.choice('ab01') for _ in range(rng.randint(Cx[1], Cx[2])))
+        if is_size_expr(Cx):
+            if not sizes(Cx):
+                return v
+            return ''.join(rng.choice('ab01') for _ in range(rng.choice(sizes(Cx))))
         return ''.join(rng.choice(Cx[1]) for _ in range(rng.randint(0, 6)))
+    if k in ('oid', 'enum'):
+        return rng.choice(Cx[1])
     return v
 
 
